@@ -148,23 +148,28 @@ def r2(db, rep):
 
 
 def r3(db, rep):
-    rep.rule("R3", "every read of ByteCompiler.const_binding_cache (get / contains_key) is control-dependent on "
-                   "`self.in_with == false`")
+    rep.rule("R3", "every read of ByteCompiler.const_binding_cache (get / contains_key) and every use of a binding's constness "
+                   "as a compile-time shortcut (Scope::is_binding_mutable) is control-dependent on `self.in_with == false`")
     n = 0
     for f in db.fns.values():
-        if not f.id.startswith("boa_engine::bytecompiler") or not f.mentions("const_binding_cache"):
+        if not f.id.startswith("boa_engine::bytecompiler") or not (f.mentions("const_binding_cache") or
+                                                                   f.mentions("is_binding_mutable")):
             continue
         name = cname(f.id)
         k = -1
         for b, t in f.calls():
             c = cn(t)
-            if c.split("::")[-1] not in ("get", "contains_key", "get_key_value") or not t["args"]:
-                continue
-            l = op_local(t["args"][0])
-            d = f.single_def(l) if l is not None else None
-            if not d or d[1] == "t" or d[2].get("k") != "ref" or not any(
-                    x.endswith("ByteCompiler.const_binding_cache") for x in place_fields(d[2]["p"])):
-                continue
+            what = "const-cache-read"
+            if c == "Scope::is_binding_mutable":
+                what = "constness-shortcut"       # "this identifier is a const" justifies hoisting it out of a loop
+            else:
+                if c.split("::")[-1] not in ("get", "contains_key", "get_key_value") or not t["args"]:
+                    continue
+                l = op_local(t["args"][0])
+                d = f.single_def(l) if l is not None else None
+                if not d or d[1] == "t" or d[2].get("k") != "ref" or not any(
+                        x.endswith("ByteCompiler.const_binding_cache") for x in place_fields(d[2]["p"])):
+                    continue
             k += 1
             n += 1
             ok = False
@@ -187,9 +192,11 @@ def r3(db, rep):
                 inwith = tb if pol else fb
                 if b in f.reach_from([notwith], avoid={sb}) and b not in f.reach_from([inwith], avoid={sb}):
                     ok = True
-            rep.ob("R3", f"{name}:const-cache-read:{k}", ok,
-                   f"{name}: reads const_binding_cache at {f.loc(b)} without `!self.in_with` — inside `with (o)` the identifier may "
-                   f"name a property of o, not the cached constant", loc=f.loc(b))
+            rep.ob("R3", f"{name}:{what}:{k}", ok,
+                   f"{name}: {'reads const_binding_cache' if what == 'const-cache-read' else 'uses the constness of a binding as a compile-time shortcut'} "
+                   f"at {f.loc(b)} without `!self.in_with` — inside `with (o)` the identifier may "
+                   f"name a property of o, not the constant (`const N=10; with(o){{ while(i<N){{ i++; o.N=3 }} }}` must stop at 3)",
+                   loc=f.loc(b))
     rep.floor("R3", "const_binding_cache read sites", n, 3)
 
 
@@ -659,6 +666,102 @@ def r7(db, rep):
     rep.floor("R7", "single-scope statement nodes compared", n, 4)
 
 
+def _expression_bearing(db):
+    import re
+    adts = {k: a for k, a in db.adts.items() if k.startswith("boa_ast::")}
+    ex = {"boa_ast::expression::Expression"}
+
+    def mentions(ty, S):
+        return any(re.search(r"(?<![A-Za-z0-9_:])" + re.escape(x) + r"(?![A-Za-z0-9_])", ty) for x in S)
+    changed = True
+    while changed:
+        changed = False
+        for k, a in adts.items():
+            if k not in ex and any(mentions(fl["ty"], ex) for v in a["variants"] for fl in v["fields"]):
+                ex.add(k)
+                changed = True
+    return adts, ex, mentions
+
+
+def _touched_fields(f):
+    out, whole = set(), set()
+
+    def addpl(pl):
+        for x in place_fields(pl):
+            out.add(x.split("::")[-1])
+    for b in f.reachable():
+        for st in f.blocks[b]["s"]:
+            addpl(st["p"])
+            r = st["r"]
+            for key in ("o", "a", "b"):
+                o = r.get(key)
+                if isinstance(o, list) and o and o[0] in ("c", "m"):
+                    addpl(o[1])
+            if isinstance(r.get("p"), list):
+                addpl(r["p"])
+            for o in r.get("ops", []):
+                if o[0] in ("c", "m"):
+                    addpl(o[1])
+        t = f.blocks[b]["t"]
+        for a in t.get("args", []):
+            if a[0] in ("c", "m"):
+                addpl(a[1])
+        if t["t"] == "switch" and t["o"][0] in ("c", "m"):
+            addpl(t["o"][1])
+        if t["t"] == "call":
+            parts = cn(t).split("::")
+            if len(parts) >= 2:
+                out.add(parts[-2] + "." + parts[-1].replace("_mut", ""))     # accessor: T::field() / T::field_mut()
+            for a in t["args"][1:]:
+                l = op_local(a)
+                if l is not None:
+                    whole.add(f.locals[l].replace("&'ast mut ", "").replace("&mut ", "").replace("&", "").strip())
+    return out, whole
+
+
+def r8(db, rep):
+    rep.rule("R8", "each scope pass reaches every child that can contain an expression: in every visit_X_mut override of "
+                   "BindingCollectorVisitor / BindingEscapeAnalyzer / ScopeIndexVisitor, each field of X (or of an enum payload of "
+                   "X) whose type can contain a boa_ast Expression is read, reached through its accessor, or handed on as a whole "
+                   "— an unvisited child keeps wrong scopes, escapes and indices for the functions and identifiers inside it")
+    adts, ex, mentions = _expression_bearing(db)
+    rep.floor("R8", "boa_ast types that can contain an Expression", len(ex), 150)
+    n = 0
+    for f in db.fns.values():
+        if f.krate != "boa_ast" or "{closure" in f.id or f.rec["argc"] < 2:
+            continue
+        kind = next((k for k, v in SCOPE_VISITORS.items() if v in f.id), None)
+        if kind is None or not (f.name.startswith("visit_") and f.name.endswith("_mut")):
+            continue
+        T = f.locals[2].replace("&'ast mut ", "").replace("&mut ", "").strip()
+        a = adts.get(T)
+        if not a:
+            continue
+        tch, whole = _touched_fields(f)
+        payloads = []
+        if a["kind"] == "enum":
+            for vv in a["variants"]:
+                for fl in vv["fields"]:
+                    if fl["ty"] in adts:
+                        payloads.append((vv["name"], adts[fl["ty"]], fl["ty"]))
+        else:
+            payloads.append(("", a, T))
+        for vn, pa, pt in payloads:
+            if pa["kind"] != "struct" or (pt in whole and pt != T):
+                continue
+            for fl in pa["variants"][0]["fields"]:
+                if not mentions(fl["ty"], ex):
+                    continue
+                n += 1
+                key = pt.split("::")[-1] + "." + fl["n"]
+                rep.ob("R8", f"{SCOPE_VISITORS[kind]}::{f.name}:{key}:visited", key in tch,
+                       f"{SCOPE_VISITORS[kind]}::{f.name} never looks at {key} (type {fl['ty'].split('::')[-1]}), which can contain "
+                       f"expressions: a closure or identifier in a class method's computed name gets no scope / escape / index "
+                       f"(`function t(){{ let y='k'; class K {{ [(() => y)()](){{}} }} }}` throws ReferenceError; under `with` the "
+                       f"key reads the register instead of the object)", loc=f.span)
+    rep.floor("R8", "expression-bearing children of scope-pass overrides", n, 100)
+
+
 def run(db, rep, tier):
     r1(db, rep)
     r2(db, rep)
@@ -667,6 +770,7 @@ def run(db, rep, tier):
     r5(db, rep)
     r6(db, rep)
     r7(db, rep)
+    r8(db, rep)
     rep.assumptions += [
         "BytecodeEmitter::emit_* functions do not compile expressions (checked through the bytecompiler call graph)",
     ]
